@@ -6,6 +6,8 @@ use crate::sampler::*;
 use crate::scope::*;
 use crate::sprops::fam_for;
 use rand::RngCore;
+use std::sync::atomic::Ordering;
+use std::sync::Mutex;
 use serde_json::{json, Value};
 
 /// scripted RngCore: hands out the given u64s, counts draws
@@ -717,6 +719,68 @@ pub fn run_nolog(ctx: &Ctx, acc: &mut Acc) -> Result<(), String> {
     Ok(())
 }
 
+/// SUPPLEMENTARY, NOT EXHAUSTIVE (sampling of schedules by the operating system): four free-running threads sample three
+/// samplers of different degree of divergence in turn and compare every result with the single-threaded reference. The
+/// controlled scheduler only preempts at scalar operations of the generic code; shared state inside non-generic f64 code
+/// (which does not exist on the unchanged tree) has no scheduling point there - this pass is the separate free-running run of
+/// the same bodies that looks at it. A mismatch is a real observation on the real code and is reported as a violation.
+pub fn run_free_running(ctx: &Ctx, acc: &mut Acc) {
+    let w = world();
+    let n_iter = ctx.tier.pick(3000usize, 30000);
+    let refs: Vec<Vec<Vec<u64>>> = {
+        let rs = fresh3(&w);
+        (0..3)
+            .map(|s| {
+                w.points[s]
+                    .iter()
+                    .map(|x| match outcome_bits(&rs[s].sampler.sample(x, &rs[s].ed, &Settings::META)) {
+                        Ok(b) => b,
+                        Err(e) => vec![u64::MAX, fnv(&e)],
+                    })
+                    .collect()
+            })
+            .collect()
+    };
+    let shared = fresh3(&w);
+    let mismatches = std::sync::atomic::AtomicUsize::new(0);
+    let first: Mutex<Option<String>> = Mutex::new(None);
+    std::thread::scope(|sc| {
+        for t in 0..4usize {
+            let (w, refs, shared, mismatches, first) = (&w, &refs, &shared, &mismatches, &first);
+            sc.spawn(move || {
+                // own samplers for the odd threads, the shared ones for the even threads
+                let own = fresh3(w);
+                for i in 0..n_iter {
+                    let s = (t + i) % 3;
+                    let xi = i % w.points[s].len();
+                    let r = if t % 2 == 0 { &shared[s] } else { &own[s] };
+                    let got = match outcome_bits(&r.sampler.sample(&w.points[s][xi], &r.ed, &Settings::META)) {
+                        Ok(b) => b,
+                        Err(e) => vec![u64::MAX, fnv(&e)],
+                    };
+                    if got != refs[s][xi] {
+                        mismatches.fetch_add(1, Ordering::SeqCst);
+                        let mut f = first.lock().unwrap();
+                        if f.is_none() {
+                            *f = Some(format!("thread {t}, iteration {i}, sampler {s}, point {xi}"));
+                        }
+                    }
+                }
+            });
+        }
+    });
+    acc.add("free_running_executions(uncontrolled, supplementary)", (4 * n_iter) as u64);
+    let m = mismatches.load(Ordering::SeqCst);
+    if m > 0 {
+        acc.violate(
+            "C17/free-running-threads".into(),
+            "bit-identical results from how many threads concurrently",
+            format!("{m} of {} samples drawn by four free-running threads (three samplers of different dod in turn) differ from the single-threaded reference; first: {}", 4 * n_iter, first.lock().unwrap().clone().unwrap_or_default()),
+            json!({"engine": "history", "ops": [], "free_running": true}),
+        );
+    }
+}
+
 pub fn run_c17(ctx: &Ctx) -> i32 {
     let mut acc = Acc::new();
     if let Err(e) = run_nolog(ctx, &mut acc) {
@@ -724,6 +788,7 @@ pub fn run_c17(ctx: &Ctx) -> i32 {
         return 2;
     }
     run_histories(ctx, &mut acc);
+    run_free_running(ctx, &mut acc);
     run_hash_orders(&mut acc);
     if let Err(e) = run_processes(ctx, &mut acc) {
         eprintln!("[C17] MACHINERY: {e}");
@@ -764,14 +829,25 @@ pub fn run_c17(ctx: &Ctx) -> i32 {
         exhaustive: acc.get("schedule_cap_hit") == 0,
         bounds: json!({"history_depth": ctx.tier.pick(3, 4), "operation_alphabet": 64, "preemption_bounds": acc.hist.get("preemption_bound_completed"), "threads": "2 (thorough: also 3)"}),
         assumptions: vec![
-            "preemption happens only at scalar-operation boundaries of the generic code; non-generic f64 code (Gamma quantile, component search) has no scheduling points and no shared state today (source scan reported in coverage, as an assumption)".into(),
+            "preemption happens only at scalar-operation boundaries of the generic code; non-generic f64 code (Gamma quantile, component search) has no scheduling points and no shared state today (source scan reported in coverage, as an assumption); a separate free-running pass (four OS threads, uncontrolled, supplementary - sampling, not exhaustive) runs the same bodies and would show a data race there".into(),
         ],
         extra,
     };
     finish(ctx, &acc, fin)
 }
 
-pub fn replay_history(_ctx: &Ctx, case: &Value) -> i32 {
+pub fn replay_history(ctx: &Ctx, case: &Value) -> i32 {
+    if case["free_running"].as_bool().unwrap_or(false) {
+        let mut acc = Acc::new();
+        run_free_running(ctx, &mut acc);
+        for v in &acc.violations {
+            eprintln!("  reproduced: [{}] {}", v.clause, v.what);
+        }
+        if acc.violations.is_empty() {
+            eprintln!("  no mismatch in this free-running run (uncontrolled schedules: a data race may need several runs)");
+        }
+        return if acc.violations.is_empty() { 0 } else { 1 };
+    }
     let w = world();
     let alpha = op_alphabet();
     let refs = reference(&w);
